@@ -1266,8 +1266,9 @@ func (sw *storageWriter) ChangeKey(k Key) error {
 	}
 
 	sw.path = newPath
+	k.lockOwner = sw.key.lockOwner
 	oldKey := &Key{host: sw.key.host, path: sw.key.path, opaqueOrigin: sw.key.opaqueOrigin,
-		storedHeaders: sw.key.storedHeaders.Clone(), originalHeaders: sw.key.originalHeaders.Clone()}
+		storedHeaders: sw.key.storedHeaders.Clone(), originalHeaders: sw.key.originalHeaders.Clone(), lockOwner: sw.key.lockOwner}
 	sw.oldKey = oldKey
 	sw.key = k
 
